@@ -817,6 +817,7 @@ def execute(plan, ctx):
     seqmod.time = clock
     import os
     fs = SimFS(ctx, prefix="dst_c18_")
+    fs.known_names = set(FILES)
     wl.open = fs.open
     # the log directory is real (so that os.path.isdir / makedirs / os.replace / fsync on it behave as on a
     # real disk); every handle opened through the seam is fault-injected and the random directory name is never logged
